@@ -126,7 +126,8 @@ class RealScaleMixin:
         @settings(max_examples=n, database=None, deadline=None,
                   phases=[Phase.generate],
                   suppress_health_check=list(HealthCheck))
-        @given(gen.real_scale_cases(self.real_types))
+        @given(gen.real_scale_cases(self.real_types,
+                                    getattr(self, 'real_need_subs', False)))
         def drive(case):
             out = E2ECheck.execute(self, case)
             out['cls'] = ['real-scale:' + case['transfers'][0]['type']]
@@ -580,7 +581,7 @@ class C08(E2ECheck):
         return cls, nt
 
 
-class C09(E2ECheck):
+class C09(RealScaleMixin, E2ECheck):
     id = 'C09'
     oracle = staticmethod(oracles.oracle_c09)
     quick_examples = 32000
@@ -632,10 +633,18 @@ class C09(E2ECheck):
             return
         yield from super().shrink_candidates(case)
 
+    real_need_subs = True
+    real_cases = {'quick': 32, 'thorough': 320}
+
     def extra_shards(self, tier):
-        return 1
+        return 16
 
     def extra_shard(self, tier, seed, shard, nshards, stats):
+        # a thin real-scale class: real 256 KiB aggregation threshold,
+        # MiB-sized bodies, rewinds after the threshold was crossed
+        RealScaleMixin.extra_shard(self, tier, seed, shard, nshards, stats)
+        if shard != 0:
+            return
         # trusted-base validation: what a real botocore client does to an
         # upload body must be something the fake client can do
         from ..units import botocore_diff
